@@ -105,7 +105,7 @@ static int loop_begin(void) {
   if (API("loop_init", uv_loop_init(&L)) != 0) return -1;
   loop_ok = 1;
   uv_timer_init(&L, &wd);
-  uv_timer_start(&wd, wd_cb, 2000, 0);
+  uv_timer_start(&wd, wd_cb, 5000, 0);
   uv_unref((uv_handle_t*) &wd);
   wd_on = 1;
   return 0;
@@ -141,7 +141,7 @@ static void loop_end(void) {
     fi_api = "teardown";
     uv_walk(&L, walk_close, NULL);
     /* everything user-visible is closing now; completion must not need more than this */
-    uv_timer_start(&wd, wd_cb, 800, 0);
+    uv_timer_start(&wd, wd_cb, 1200, 0);
     wd_fired = 0;
     for (i = 0; i < 5000 && uv_loop_alive(&L) && !wd_fired; i++) {
       fi_api = "run";
